@@ -448,6 +448,7 @@ class Case:
 
 FUNCS_SEEN = set()
 _MON = [None]
+EXTRA_RUNGS = ()  # additional proof-ladder rungs, opt-in per check module: "cone-strong"
 
 
 def _start_monitor():
@@ -671,6 +672,8 @@ def run_case(case, cfg):
                 base = list(T.PI_AXIOMS) + ctx.assumptions
                 cone_w = ctx.cone([g], weak=True)
                 rungs = [("cone", base + cone_w)]
+                if "cone-strong" in EXTRA_RUNGS and ctx.has_weak:  # opt-in (C06): the goal's cone with the FULL defining axioms
+                    rungs.append(("cone-strong", base + ctx.cone([g], weak=False)))
                 if ctx.pc:
                     rungs.append(("cone+pc", base + ctx.cone([g] + ctx.pc, weak=True) + ctx.pc))
                 if ctx.has_weak:
